@@ -398,6 +398,35 @@ def chain_mpo_dense(bl, ops, algo="qr"):
     return np.asarray(Mpo(Model(list(bl), []), ops, algo=algo).todense())
 
 
+def make_ttno(ctx, terms, algo=None):
+    """TTNO of a term list (plain-data terms of vf.gen) on the tree of ctx; for an auxiliary-space context the terms act on
+    the physical half"""
+    from renormalizer.tn import TTNO
+
+    ops = build_ops(ctx.mspec, terms)
+    return TTNO(ctx.tree, ops) if algo is None else TTNO(ctx.tree, ops, algo=algo)
+
+
+def random_ttns(ctx, q, m, rng, pct=1.0):
+    """seeded TTNS.random in sector q (tuple); None when the library refuses (tiny m_max / unreachable sector, DESIGN §3.2)"""
+    from renormalizer.tn import TTNS
+
+    np.random.seed(rng)
+    qarg = int(q[0]) if len(q) == 1 else np.array(q)
+    try:
+        x = TTNS.random(ctx.tree, qarg, m, percent=pct)
+        d = ttns_dense(ctx, x)
+        if not np.all(np.isfinite(d)) or np.linalg.norm(d) == 0:
+            return None
+        return x
+    except (FloatingPointError, ZeroDivisionError):
+        return None
+    except ValueError as e:
+        if "need at least one array" in str(e) or "zero-size" in str(e):
+            return None
+        raise
+
+
 def embed_partial(ctx_pq, mat_p):
     """operator on the physical half -> operator on [P0,Q0,P1,Q1,...]"""
     n = ctx_pq.n // 2
@@ -637,7 +666,7 @@ class TInterp:
     matrix on the state space).  hooks: optional object with after_create(it, reg), after_arith(it, reg, ins, sig),
     after_gauge(it, reg, before, ins, name), after_observe(it, name, got, ref)."""
 
-    def __init__(self, tspec, result, hooks=None, aux=False, ctx=None):
+    def __init__(self, tspec, result, hooks=None, aux=False, ctx=None, probe_default_todense=False):
         self.tspec = tspec
         self.mspec = tspec["model"]
         self.r = result
@@ -652,6 +681,8 @@ class TInterp:
         self.zero_q = tuple([0] * self.ctx.qs)
         self.has_qn = any(np.any(np.asarray(q) != 0) for q in self.ctx.site_qn)
         self.max_regs = 10
+        # C11 only: also call todense() without `order` on every created state (F13: KeyError on trees with a dummy node)
+        self.probe_default_todense = bool(probe_default_todense)
         self.max_fail = 3
 
     # ---------------------------------------------------------------------------------------------
@@ -717,7 +748,8 @@ class TInterp:
             return None
         raw = contract_raw(self.sctx, obj) * obj.coeff
         self.r.check_close(f"create.{tag}.raw_vs_todense", d, raw, self.tol(np.linalg.norm(raw), 1e-12), "todense(order) vs harness contraction")
-        self.check_default_todense(obj, d, f"create.{tag}")
+        if self.probe_default_todense:
+            self.check_default_todense(obj, d, f"create.{tag}")
         reg = Reg(obj, d, q, "S", tag, self.sctx)
         self.S.append(reg)
         self.hooks.after_create(self, reg)
@@ -876,6 +908,29 @@ class TInterp:
         self.hooks.after_arith(self, reg, ins, sig)
         return reg
 
+    MAX_TENSOR = 60000
+
+    def _sum_fits(self, x, y):
+        """would x.add(y) stay small? (virtual legs add up; node tensors of high arity grow quickly)"""
+        for i, (n1, n2) in enumerate(zip(x.node_list, y.node_list)):
+            k = len(self.sctx.nodes[i].children)
+            sh = [a + b for a, b in zip(n1.tensor.shape[:k], n2.tensor.shape[:k])] + list(n1.tensor.shape[k:-1]) + \
+                 [n1.tensor.shape[-1] + n2.tensor.shape[-1] if i else 1]
+            if np.prod([float(v) for v in sh]) > self.MAX_TENSOR:
+                return False
+        return True
+
+    def _product_fits(self, o, x):
+        for n1, n2 in zip(x.node_list, o.node_list):
+            if float(n1.tensor.size) * float(n2.tensor.size) > 40 * self.MAX_TENSOR:
+                return False
+            k = len(n1.children)
+            sh = [a * b for a, b in zip(n1.tensor.shape[:k], n2.tensor.shape[:k])] + list(n1.tensor.shape[k:-1]) + \
+                 [n1.tensor.shape[-1] * n2.tensor.shape[-1]]
+            if np.prod([float(v) for v in sh]) > self.MAX_TENSOR:
+                return False
+        return True
+
     def _nonzero_sum(self, m1, m2):
         s = np.linalg.norm(m1) + np.linalg.norm(m2)
         return np.linalg.norm(m1 + m2) > 1e-6 * s
@@ -887,7 +942,7 @@ class TInterp:
         b = self.pick(self.S, ins["b"], same_q_as=a)
         if b is None or not self._nonzero_sum(a.model, b.model):
             return
-        if max(x + y for x, y in zip(a.obj.bond_dims, b.obj.bond_dims)) > 48:
+        if max(x + y for x, y in zip(a.obj.bond_dims, b.obj.bond_dims)) > 48 or not self._sum_fits(a.obj, b.obj):
             return
         if a.obj.coeff != 1 or b.obj.coeff != 1:
             return  # DESIGN §3.9: add does not fold prefactors
@@ -925,7 +980,7 @@ class TInterp:
         b = self.pick(self.S, ins["b"], same_q_as=a)
         if b is None or not self._nonzero_sum(a.model, 1j * b.model):
             return
-        if max(x + y for x, y in zip(a.obj.bond_dims, b.obj.bond_dims)) > 48:
+        if max(x + y for x, y in zip(a.obj.bond_dims, b.obj.bond_dims)) > 48 or not self._sum_fits(a.obj, b.obj):
             return
         ok, c = self.guard("arith.cadd", lambda: a.obj.add(b.obj.scale(1j)))
         if ok:
@@ -1000,7 +1055,7 @@ class TInterp:
         ref = o.model @ a.model
         if np.linalg.norm(ref) <= 1e-9 * np.linalg.norm(o.model, 2) * np.linalg.norm(a.model):
             return None, None, None  # the zero state is outside the domain
-        if max(x * y for x, y in zip(a.obj.bond_dims, o.obj.bond_dims)) > 64:
+        if max(x * y for x, y in zip(a.obj.bond_dims, o.obj.bond_dims)) > 64 or not self._product_fits(o.obj, a.obj):
             return None, None, None
         return o, a, ref
 
@@ -1571,7 +1626,7 @@ class TInterp:
                 if ok1 and ok2:
                     self.r.check_close("twin.expectation", complex(v2), complex(v1),
                                        self.tol(np.linalg.norm(o.model, 2) * sq, 1e-7), f"trace={tr}")
-                if max(x * y for x, y in zip(tw.bond_dims, o2.bond_dims)) <= 64:
+                if max(x * y for x, y in zip(tw.bond_dims, o2.bond_dims)) <= 64 and self._product_fits(o.obj, a.obj):
                     ok1, y1 = self.guard("twin.apply", o.obj.apply, a.obj)
                     ok2, y2 = self.guard("twin.apply", o2.apply, tw)
                     if ok1 and ok2:
@@ -1581,7 +1636,7 @@ class TInterp:
                             self.r.check_close("twin.apply", d2, d1, self.tol(np.linalg.norm(o.model, 2) * nrm, 1e-7), f"trace={tr}")
         b = self.pick(self.S, ins.get("b", 0), same_q_as=a)
         if b is not None and not sc.single_node and self._nonzero_sum(a.model, b.model) and \
-                max(x + y for x, y in zip(a.obj.bond_dims, b.obj.bond_dims)) <= 48:
+                max(x + y for x, y in zip(a.obj.bond_dims, b.obj.bond_dims)) <= 48 and self._sum_fits(a.obj, b.obj):
             ok, res = self.guard("twin.build", self.make_twin, b.obj, keys)
             if ok:
                 ok, s2 = self.guard("twin.add", tw.add, res[1])
